@@ -195,7 +195,8 @@ def validate(run, pid, label, logs, also=(), shard_of=None, overhead=OVERHEAD_MS
                 run.violation("%s:%s" % (code, re.sub(r"\s+", "_", detail)[:300]), "%s: %s" % (code, detail), rep)
             else:
                 other[prop] = other.get(prop, 0) + 1
-                run.foreign(prop, code, detail)
+                if not (scripts is not None and si is not None and any(st.get("expect_unanswered") for st in scripts[si])):
+                    run.foreign(prop, code, detail)
     run.add("traces_validated_against_impl", len(logs))
     # upper timing bounds are confirmed in isolation (at least 2 of 3 re-runs) before they are reported
     for si, code, detail in late:
@@ -1113,7 +1114,10 @@ def timed_info_lines(run, pid, tier):
                          {"do": "send", "line": rng.choice(live)}, {"do": "go", "line": "go wtime 600 btime 600 movestogo 1"}])
     # a clock far beyond anything a GUI sends (the slice does not fit 64 bits): never answered in our lifetime, but the
     # lines printed meanwhile are still judged
-    sessions.append([{"do": "send", "line": rng.choice(live)}, {"do": "go", "line": "go wtime 691752902764108185600 btime 691752902764108185600", "wait_ms": 7000}])
+    # (the engine is right to think "forever" here: the driver gives up after 7 s; the unanswered go and the process that
+    # outlives its input are consequences of the clock it was given, not findings - the session is read for its info lines)
+    sessions.append([{"do": "send", "line": rng.choice(live)}, {"do": "go", "line": "go wtime 691752902764108185600 btime 691752902764108185600", "wait_ms": 7000,
+                      "expect_unanswered": True}])
     plan(h, sessions)
     logs = run_sessions(binary, sessions, 6)
     totals = validate(run, pid, "timed", logs, scripts=sessions, binary=binary)
